@@ -85,8 +85,83 @@ fn hot_first_touch(ctx: &mut Ctx) {
     }
 }
 
+/// ONE parsed template shared by all threads, each thread rendering it with its own data (a different
+/// partial name, a different collection): what a render returns must depend on its own data only.
+fn shared_template_own_data(ctx: &mut Ctx) {
+    let rounds = if ctx.tier_thorough { 200 } else { 20 };
+    let partials: Vec<PartialDef> = vec![
+        ("row_a".into(), Ok(vec![text("<a "), out(var("i")), text(">")])),
+        ("row_b".into(), Ok(vec![text("<b "), out(var("i")), text(">")])),
+    ];
+    let t: Vec<Node> = vec![
+        Node::Render(var("which"), RForm::For(RangeE::Counted(lit_i(1), lit_i(6)), "i".into()), vec![]),
+        text("|"),
+        Node::Include(var("which"), vec![("i".into(), lit_i(0))]),
+        Node::For { x: "k".into(), rng: RangeE::Arr(var("ks")), limit: None, offset: None, rev: false, body: vec![Node::Render(var("which"), RForm::With(var("k"), "i".into()), vec![])], els: None },
+    ];
+    let src = src_tmpl(&t);
+    let mk = |which: &str, ks: Vec<i64>| {
+        let mut d = liquid_core::model::Object::new();
+        d.insert("which".into(), liquid_core::model::Value::scalar(which.to_string()));
+        d.insert("ks".into(), liquid_core::model::Value::Array(ks.into_iter().map(liquid_core::model::Value::scalar).collect()));
+        d
+    };
+    let datas = Arc::new(vec![mk("row_a", vec![1, 2, 3]), mk("row_b", vec![9, 8]), mk("row_a", vec![]), mk("row_b", vec![5])]);
+    let reference: Vec<Obs> = datas.iter().map(|d| render_text(&build_parser(&partials, Policy::Lazy), &src, d)).collect();
+    let mut worst = "own-data".to_string();
+    for _ in 0..rounds {
+        let shared = build_parser(&partials, Policy::Lazy);
+        let tmpl = match shared.parse(&src) {
+            Ok(t) => Arc::new(t),
+            Err(_) => break,
+        };
+        let nthreads = 8;
+        let barrier = Arc::new(Barrier::new(nthreads));
+        let (tx, rx) = mpsc::channel::<(usize, String)>();
+        for th in 0..nthreads {
+            let (tmpl, barrier, datas, tx) = (tmpl.clone(), barrier.clone(), datas.clone(), tx.clone());
+            std::thread::spawn(move || {
+                barrier.wait();
+                for n in 0..200 {
+                    let di = (th + n) % datas.len();
+                    let res = catch_unwind(AssertUnwindSafe(|| tmpl.render(&datas[di])));
+                    let obs = match res {
+                        Ok(Ok(s)) => Obs::Ok(s),
+                        Ok(Err(e)) => Obs::Err(e.to_string()),
+                        Err(e) => Obs::Panic(panic_msg(e)),
+                    };
+                    if tx.send((di, obs.tokens())).is_err() {
+                        break;
+                    }
+                    if n % 7 == th % 7 {
+                        std::thread::yield_now();
+                    }
+                }
+            });
+        }
+        drop(tx);
+        let mut bad = 0;
+        let mut got = 0;
+        while let Ok((di, o)) = rx.recv_timeout(Duration::from_secs(30)) {
+            got += 1;
+            if o != reference[di].tokens() {
+                bad += 1;
+            }
+        }
+        if got < nthreads * 200 {
+            worst = "DEADLOCK".into();
+        } else if bad > 0 && worst == "own-data" {
+            worst = format!("MISMATCH:{}", bad);
+        }
+    }
+    for (di, d) in datas.iter().enumerate() {
+        ctx.emit(render_case("c20", &worst, &t, d, &partials, &reference[di]));
+    }
+}
+
 pub fn run(ctx: &mut Ctx) {
     hot_first_touch(ctx);
+    shared_template_own_data(ctx);
     let rounds = if ctx.tier_thorough { 20_000 } else { 250 };
     let mut g = Gen::new(ctx.seed ^ 0xC20);
     for round in 0..rounds {
